@@ -81,7 +81,7 @@ Definition engine_params : list string := ["context"; "ctx"; "eval_ctx"; "__self
 (* (function, parameter) pairs whose parameter is a dict / list the engine's own caller just built,
    or is copied on the path that writes (probed by the harness) *)
 Definition owned_param_sites : list (string * string) :=
-  [("runtime.new_context", "vars"); ("filters.prepare_map", "kwargs"); ("filters.prepare_select_or_reject", "kwargs")]%string.
+  [("runtime.new_context", "vars"); ("filters.prepare_map", "kwargs")]%string.
 
 Definition mem (s : string) (l : list string) : bool := existsb (String.eqb s) l.
 
